@@ -54,7 +54,7 @@ def reader_correspondence(ck, fut):
     """handler models (Model/Reader.v) <-> the REAL handlers on printed documents; oracle + guards judged in Coq"""
     res = fut.result()
     defs = [f"Definition dt_table := {res['dt_table']}."]
-    terms, meta = [], []
+    terms, meta, groups = [], [], []
     stats = {"jobs": len(res["jobs"]), "cases": 0, "unsupported": 0, "skipped_jobs": 0, "decorations": {}}
     for j in res["jobs"]:
         if j.get("crashed"):
@@ -88,14 +88,16 @@ def reader_correspondence(ck, fut):
         if j.get("skipped") or not j.get("universe") or not j.get("conv"):
             stats["skipped_jobs"] += 1
             continue
-        defs.append(f"Definition u_{j['id']} : universe := {j['universe']}.")
-        defs.append(f"Definition tbl_{j['id']} : conv_table := {j['conv']}.")
-        defs.append(f"Definition nd_{j['id']} : list (cls * list str) := {j['nodefault']}.")
+        gterms = []
+        groups.append((f"Definition u_{j['id']} : universe := {j['universe']}.\n"
+                       f"Definition tbl_{j['id']} : conv_table := {j['conv']}.\n"
+                       f"Definition nd_{j['id']} : list (cls * list str) := {j['nodefault']}.", gterms))
         for c in j["cases"]:
             if c.get("harness_problem"):
                 ck.failure("harness-printer", c["harness_problem"], {"job": {"seed": j["seed"], "model": j["model"]}, "xml": c.get("xml")})
             elif c.get("term"):
                 terms.append(c["term"])
+                gterms.append(c["term"])
                 meta.append((j, c))
                 for w in c["what"]:
                     stats["decorations"][w] = stats["decorations"].get(w, 0) + 1
@@ -104,7 +106,7 @@ def reader_correspondence(ck, fut):
     checks = {k: k for k in AGREE + ["oracle_handlers_agree", "oracle_et_agrees", "guard_handlers"]}
     checks["explained_F7"] = "fun x => negb (explained_by_union_decls x)"
     checks["explained_F1"] = "fun x => negb (et_models_differ x)"
-    bad, cstats = coq_robust.matrix(ck, "c08_reader", IMPORTS, "\n".join(defs), "rcase", checks, terms, targets=["Model/ReaderCorr.vo"])
+    bad, cstats = coq_robust.matrix_grouped(ck, "c08_reader", IMPORTS, "\n".join(defs), groups, "rcase", checks, targets=["Model/ReaderCorr.vo"])
     stats["coq_eval"] = cstats
 
     def rp(i):
